@@ -177,5 +177,9 @@ pub fn run(cfg: &RunCfg) -> i32 {
             check.violate("scenario", &v.case, v.failure);
         }
     }
+    if !check.has_violation() {
+        check.assume("wire part: the end of a session has been processed when the client's own $SYS entries are gone (polled by the observer for at most 10 s of answered polls); a harness-side timeout on an answer is inconclusive");
+        super::c07w::part(&mut check, cfg);
+    }
     check.finish()
 }
